@@ -260,6 +260,18 @@ def case_scan(T, Dz, Dy):
         ref = m.regs[filt]
         fail_if(fails, PROPERTY, "scan:mu", "scan carry differs from the eager filter", np.asarray(final.mu), np.asarray(ref.mu), tol=1e-7, params=params)
         fail_if(fails, PROPERTY, "scan:Sigma", "scan carry differs from the eager filter", np.asarray(final.Sigma), np.asarray(ref.Sigma), tol=1e-7, params=params)
+        # the same filter with the measurement update through likelihood factors: set_y -> multiply -> get_density; the carry
+        # is a density produced by get_density(), the initial carry a constructed one (same pytree structure required)
+        def step2(carry, y):
+            pred = S.affine_marginal_transformation(carry)
+            new = pred.multiply(O.set_y(y[None]), update_full=True).get_density()
+            return new, new.mu[0]
+        try:
+            final2, _ = jax.lax.scan(step2, P0, jnp.asarray(ys))
+            fail_if(fails, PROPERTY, "scan-factors:mu", "scan over set_y -> multiply -> get_density differs from the eager filter", np.asarray(final2.mu), np.asarray(ref.mu), tol=1e-7, params=params)
+            fail_if(fails, PROPERTY, "scan-factors:Sigma", "scan over set_y -> multiply -> get_density differs from the eager filter", np.asarray(final2.Sigma), np.asarray(ref.Sigma), tol=1e-7, params=params)
+        except Exception as e:
+            fails.append(failure(PROPERTY, "scan-factors", f"lax.scan with a get_density() result as carry raised: {type(e).__name__}: {str(e)[:200]}", params=params))
         return fails
     return Case(label, fn)
 
